@@ -166,12 +166,249 @@ def gen_second_connection(r, n):
     return cases
 
 
+def gen_carry_over(r, n):
+    """the count is per connection: a connection ends for another reason (peer close, read error, framing error, disable +
+    enable) with 1..N-1 timeouts pending, and the next connection then gets timeouts - it is dropped only after N of its own"""
+    cases = []
+    nid = 0
+    for mt in (2, 3, 4, 5):
+        for pend in range(1, mt):
+            for end in ('Z', 'R', 'G', 'DE', 'Zinflight'):
+                for more in sorted(set([mt - pend, mt - 1, mt])):
+                    cfg = {'cap': 16, 'handles': 1, 'mt': mt, 'rmin': 20 * MS, 'rmax': 40 * MS}
+                    sim = cl.Sim(cfg)
+                    sc = []
+                    connect(sim, sc)
+                    i = 0
+                    for _ in range(pend):
+                        add(sim, sc, ('S', i, 'r', 5 * MS, r.choice('fcx')))
+                        add(sim, sc, ('T', cl.fires_at(sim.until) - sim.now))
+                        i += 1
+                    if end == 'DE':
+                        add(sim, sc, ('D', 'f'))
+                    elif end == 'Zinflight':
+                        add(sim, sc, ('S', i, 'r', 5 * MS, 'f'))
+                        i += 1
+                        add(sim, sc, ('Z',))
+                    else:
+                        add(sim, sc, (end,))
+                    connect(sim, sc)
+                    for _ in range(more):
+                        if sim.ph != 'Idle':
+                            break
+                        add(sim, sc, ('S', i, 'r', 5 * MS, r.choice('fcx')))
+                        add(sim, sc, ('T', cl.fires_at(sim.until) - sim.now))
+                        i += 1
+                    cases.append((cfg, sc))
+    r.shuffle(cases)
+    return cases[:n]
+
+
+# ------------------------------------------------------------------------------- ClientOptions builder
+# a chain is a list of (setter letter, argument code); syntax and codes: harness/src/cmd/clientoptions.rs
+SETTER = {'l': 'channel_logging', 'q': 'max_queued_requests', 'd': 'decode_level', 't': 'max_response_timeouts'}
+OPTION = {'l': 'channel_logging', 'q': 'max_queued_requests', 'd': 'decode_level', 't': 'max_timeouts'}
+VALUES = {'l': [0, 1], 'q': [1, 4, 16, 64], 'd': [0, 1, 2], 't': [0, 1, 2, 3, 5]}
+OPT_MODEL_OK = False
+
+
+def chain_text(ch):
+    return ','.join(f'{k}{v}' for k, v in ch) or '-'
+
+
+def chain_spec_term(ch):
+    return '[' + '; '.join(f'("{SETTER[k]}", {v}%N)' for k, v in ch) + ']'
+
+
+def chain_model_term(ch):
+    return '[' + '; '.join(f'(B{"".join(w.capitalize() for w in SETTER[k].split("_"))}, {v}%N)' for k, v in ch) + ']'
+
+
+def gen_chains(r, n):
+    import itertools
+    out = [[]]
+    for k in 'lqdt':
+        out += [[(k, v)] for v in VALUES[k]]
+    # the limit set first, then every other setter after it; and the other way round
+    for k in 'lqd':
+        for t in (1, 2, 3):
+            out += [[('t', t), (k, VALUES[k][-1])], [(k, VALUES[k][-1]), ('t', t)]]
+    # every order of the four setters
+    for perm in itertools.permutations('lqdt'):
+        out.append([(k, r.choice(VALUES[k][1:])) for k in perm])
+    while len(out) < n:
+        out.append([(k, r.choice(VALUES[k])) for k in r.choices('lqdt', k=r.randint(2, 7))])
+    return out
+
+
+def impl_fields(line):
+    """`l=1 q=16 d=0 t=3` -> the Spec's print"""
+    try:
+        kv = dict(x.split('=') for x in line.split())
+        return ' '.join(f'{OPTION[k]}={kv[k]}' for k in 'lqdt')
+    except (ValueError, KeyError):
+        return line
+
+
+def eval_chains(ctx, chains):
+    """(implementation fields, Spec fields, Spec limit, model fields or None) for every chain"""
+    impl = [impl_fields(x) for x in ctx.harness('clientoptions', [chain_text(c) for c in chains])]
+    spec = ctx.coq_eval(['Spec.OptionsSpecShow'], 'show_spec_options', [chain_spec_term(c) for c in chains],
+                        case_type='list (string * N)', preamble='Local Open Scope string_scope.', per_shard=400)
+    if OPT_MODEL_OK:
+        mod = ctx.coq_eval(['Gen.ClientOptions', 'Model.OptionsBuilder'], 'fun cs : list call => show_options (build cs)', [chain_model_term(c) for c in chains],
+                           case_type='list call', per_shard=400)
+    else:
+        mod = [None] * len(chains)
+    res = []
+    for i, sp, m in zip(impl, spec, mod):
+        fields, limit = sp.rsplit(' limit=', 1)
+        res.append((i, fields, None if limit == '-' else int(limit), m))
+    return res
+
+
+def subchains(ch):
+    import itertools
+    out = []
+    for k in range(1, len(ch)):
+        out += [[ch[i] for i in ix] for ix in itertools.combinations(range(len(ch)), k)]
+    return out
+
+
+def options_fields(ctx, chains):
+    """the builder itself: every chain of public builder calls yields the documented options (hook client_options_fields)"""
+    res = eval_chains(ctx, chains)
+    nspec = nmod = 0
+    for ch, (i, sp, _, m) in zip(chains, res):
+        if i != sp:
+            nspec += 1
+            if nspec == 1:
+                cands = sorted(subchains(ch), key=len)
+                small, si, ss = ch, i, sp
+                if cands:
+                    for c2, (i2, s2, _, _) in zip(cands, eval_chains(ctx, cands)):
+                        if i2 != s2:
+                            small, si, ss = c2, i2, s2
+                            break
+                calls = '.'.join(f'{SETTER[k]}({v})' for k, v in small)
+                ctx.violation('C12.options-builder-call-changes-another-option',
+                              f'ClientOptions::default().{calls}: documented result {ss}, the implementation yields {si} (codes: harness/src/cmd/clientoptions.rs)',
+                              {'chains': [chain_text(small)], 'impl': si, 'spec': ss, 'model': m, 'original_chain': chain_text(ch)})
+        elif m is not None and m != i:
+            nmod += 1
+            if nmod == 1:
+                ctx.violation('model-differs-from-impl', f'ClientOptions chain {chain_text(ch)}: model {m}, implementation {i}',
+                              {'chains': [chain_text(ch)], 'impl': i, 'model': m}, no_failing_input=True)
+    ctx.oblige('correspondence:options-builder-chains', nspec == 0 and nmod == 0, f'{nmod} model / {nspec} spec mismatches in {len(chains)} chains')
+    return res
+
+
+def options_behaviour(ctx, chains, res):
+    """the options go into the REAL task (create_tcp_client_task_with_options, loopback TCP, no hook): a silent peer, every
+    request times out; with the documented limit L the connection is dropped after every L-th timeout in a row, without
+    a limit never"""
+    from checks import c13
+    items = []
+    for ch, (_, _, limit, _) in zip(chains, res):
+        L = limit or 0
+        k = (2 * L + 1) if L else 3
+        sc = c13.Scenario(L)
+        sc.op('env', 'silent')
+        sc.op('enable')
+        for _ in range(k):
+            if sc.sim.ph == 'Waiting':
+                sc.op('retry')
+            sc.op('submit')
+        if sc.sim.ph == 'Waiting':
+            sc.op('retry')
+        sc.op('shutdown')
+        line, mcase = sc.finish()
+        cfg, script = line.split('|', 1)
+        items.append((ch, L, k, f'{cfg.strip()} chain={chain_text(ch)} |{script}', mcase))
+    return judge_behaviour(ctx, items)
+
+
+def judge_behaviour(ctx, items):
+    impl = ctx.harness('lifecycle', [it[3] for it in items], shards=8, timeout=900)
+    if cl.MODEL_OK:
+        mod = ctx.coq_eval(cl.REQUIRES, 'eval_case', [cl.to_coq(it[4]) for it in items], case_type='case', per_shard=100)
+    else:
+        mod = [None] * len(items)
+    bad = 0
+    drops = 0
+    for (ch, L, k, line, mcase), i, m in zip(items, impl, mod):
+        parts = i.split('|')
+        spec, other = [], []
+        if i == 'PANIC' or len(parts) != 6:
+            spec.append('panic-or-garbled-output')
+        else:
+            ls, comp, fin, accepts, tmo, gaps = parts
+            ls = ls.split()
+            ntmo = len([c for c in comp.split() if c.endswith(':Timeout')])
+            want = ntmo // L if L else 0          # every L-th timeout in a row (silent peer: all in a row) drops the connection
+            drops += ls.count('lW20000000') + ls.count('lW40000000')
+            nw = len([x for x in ls if x[:2] == 'lW'])
+            if nw != want:
+                spec.append('C12.timeout-limit-set-through-the-options-builder-not-in-force')
+            if m is not None:
+                mp = cl.parse(cl.canon(m))
+                mls = [t.split('@')[0] for t in mp['task'] if t[0] == 'l']
+                mcomp = ' '.join(f'c{c[0]}:{c[1]}' for c in sorted(mp['comp']))
+                if mls != ls or mcomp != comp or mp['done'] != fin.startswith('done'):
+                    other.append('C12.task-built-from-the-options-differs-from-the-model')
+            if tmo:
+                other.append('C12.' + tmo.replace(' ', '-'))
+        why = spec + other
+        if why:
+            bad += 1
+            if bad <= 1:
+                calls = '.'.join(f'{SETTER[a]}({v})' for a, v in ch)
+                ctx.violation(why[0], f'ClientOptions::default().{calls} (documented limit {L or None}), silent peer, {k} requests [{line}]: {", ".join(why)}; impl={i} model={m}',
+                              {'behaviour': [[chain_text(ch), L, k, line, cl.case_json(mcase)]], 'impl': i, 'model': m, 'why': why},
+                              no_failing_input=not spec)
+    ctx.oblige('correspondence:options-reach-the-real-task', bad == 0, f'{bad} of {len(items)} scenarios')
+    return drops
+
+
+def options_family(ctx):
+    global OPT_MODEL_OK
+    e = getattr(ctx, 'gen_report', {}).get('ClientOptions.v', {'ok': False, 'error': 'no such generator'})
+    if not ctx.oblige('translator:ClientOptions.v', e['ok'], e.get('error', '')):
+        ctx.proof_broken.append(f'translator could not regenerate Gen/ClientOptions.v: {e.get("error")}')
+    OPT_MODEL_OK = bool(e['ok']) and ctx.build_models(['Model.OptionsBuilder'])
+    ctx.build_models(['Spec.OptionsSpecShow'])
+    if ctx.replay and 'chains' in ctx.replay:
+        options_fields(ctx, [[(c[0], int(c[1:])) for c in t.split(',') if c and c != '-'] for t in ctx.replay['chains']])
+        return {}
+    if ctx.replay and 'behaviour' in ctx.replay:
+        judge_behaviour(ctx, [([(c[0], int(c[1:])) for c in t.split(',') if c and c != '-'], L, k, line, cl.case_from_json(j))
+                              for t, L, k, line, j in ctx.replay['behaviour']])
+        return {}
+    if ctx.replay:
+        return {}
+    chains = gen_chains(ctx.rng, 150 if ctx.quick() else 1500)
+    res = options_fields(ctx, chains)
+    # behaviour: the chains in which the limit is set and other setters follow, some without a limit
+    pick = [j for j, ch in enumerate(chains) if any(k == 't' for k, _ in ch[:-1]) and (res[j][2] or 0) <= 3]
+    nolimit = [j for j, ch in enumerate(chains) if res[j][2] is None and ch]
+    ctx.rng.shuffle(pick)
+    ctx.rng.shuffle(nolimit)
+    sel = sorted(pick[:20 if ctx.quick() else 80] + nolimit[:4 if ctx.quick() else 16], key=lambda j: len(chains[j]))   # the first one reported is a short one
+    drops = options_behaviour(ctx, [chains[j] for j in sel], [res[j] for j in sel])
+    stats = {'options-chains': len(chains), 'options-chains-limit-then-other-setters': len(pick),
+             'options-behaviour-scenarios': len(sel), 'options-behaviour-drops-observed': drops}
+    if len(pick) < 20 or drops < 10:
+        ctx.oblige('generator-reaches-expected-classes:options', False, str(stats))
+    return stats
+
+
 def gen_c12(r, quick):
     cases = gen_boundary(r)
     cases += gen_split(r, 150 if quick else 1500)
     cases += gen_patterns(r, 300 if quick else 3000)
     cases += gen_slow_write(r, 40 if quick else 300)
     cases += gen_second_connection(r, 40 if quick else 300)
+    cases += gen_carry_over(r, 120 if quick else 400)
     w = {'S': 6, 'F': 4, 'P': 1.5, 'Q': 5, 'T': 9, 'E': 0.3, 'D': 0.2, 'H': 0, 'A': 0.05, 'X': 0.1, 'W': 0.3, 'V': 0.6,
          'Z': 0.2, 'R': 0.2, 'G': 0.2, 'L': 0.2}
     for _ in range(1500 if quick else 10000):
@@ -189,6 +426,9 @@ def run(ctx):
         cases = [cl.case_from_json(j) for j in ctx.replay['cases']]
     else:
         cases = gen_c12(ctx.rng, ctx.quick())
+    opt_stats = options_family(ctx)
+    if ctx.replay and ('chains' in ctx.replay or 'behaviour' in ctx.replay):
+        return
     impl, model = cl.run_both(ctx, cases)
     n_mis, n_spec = cl.judge(ctx, 'C12', cases, impl, model)
     ctx.oblige('correspondence:client-task-scripts', n_mis == 0 and n_spec == 0, f'{n_mis} model / {n_spec} spec mismatches in {len(cases)} scripts')
@@ -247,6 +487,7 @@ def run(ctx):
             classes[k] = classes.get(k, 0) + 1
     classes['connections-with-outcomes'] = len(seqs)
     classes['connections-dropped-by-the-limit'] = ended
+    classes.update(opt_stats)
     tl = [(sum(1 for o in outs if o == 't'), mt) for _, mt, outs, _ in seqs]
     for mt in sorted(set(m for _, m in tl)):
         classes[f'limit={mt or "None"}'] = len([1 for _, m in tl if m == mt])
